@@ -21,9 +21,10 @@ def BIN():
     return os.path.join(vlib.HARNESS_BINDIR, "h_crash")
 
 
-QUICK = ["extend", "fork", "reorg", "headers"]
-THOROUGH = ["extend", "fork", "reorg", "headers", "compact", "compact_block"]
-PRIMARY = {"opened": "init_error", "head_on_chain": "head_not_on_chain", "valid": "invalid_state", "converged": "no_convergence"}
+QUICK = ["extend", "extend_plain", "fork", "reorg", "headers"]
+THOROUGH = ["extend", "extend_plain", "fork", "reorg", "headers", "compact", "compact_block"]
+PRIMARY = {"opened": "init_error", "head_on_chain": "head_not_on_chain", "valid": "invalid_state", "converged": "no_convergence",
+           "input_converged": "no_convergence_on_interrupted_input"}
 
 
 def sh(cmd, env=None, timeout=900):
@@ -92,13 +93,16 @@ def one_point(d, k):
 def classify(desc, refstate, o):
     """Outcome record for the trace spec + list of failed clauses (in order of severity)."""
     allowed = ancestors(desc, desc["old_head"]) | ancestors(desc, refstate["head"])
-    ev = {"opened": o.get("init") == "ok", "head_on_chain": False, "valid": False, "converged": False}
+    ev = {"opened": o.get("init") == "ok", "head_on_chain": False, "valid": False, "converged": False, "input_converged": False}
     if ev["opened"]:
         ev["head_on_chain"] = o["reopened"]["head"] in allowed
         ev["valid"] = o.get("validate") == "ok"
         ev["converged"] = (not o.get("redeliver_errors")) and o["final"]["head"] == refstate["head"] \
             and o["final"]["roots"] == refstate["roots"] and o.get("final_validate") == "ok"
-    fails = [k for k in ("opened", "head_on_chain", "valid", "converged") if not ev[k]]
+        # the statement's clause: re-delivering the interrupted input alone reaches the uninterrupted node's state
+        ev["input_converged"] = (not o.get("input_errors")) and o["input_final"]["head"] == refstate["head"] \
+            and o["input_final"]["roots"] == refstate["roots"]
+    fails = [k for k in ("opened", "head_on_chain", "valid", "converged", "input_converged") if not ev[k]]
     return ev, fails
 
 
